@@ -20,6 +20,11 @@ CHECKS = {
          "Held on the executions observed: worker counts 1..16, file counts on both sides of the 2 x workers fallback threshold, forced and natural completion orders, per-file and cross-file rules, invalid-configuration variant; evidence lists orders, pids and dispatch events seen.",
          "Trusted: the sequential run as specification; fork start method (wrappers inherited by workers); completion orders are permuted in the parent after all futures finished.",
          "DESIGN.md section 4 C07"),
+
+ "C10": ("runtime monitoring: boundary trace of directory / per-file / file-list CLI runs and Linter.lint calls (forked child) on generated trees; union-law and CLI==library oracles over violation multisets",
+         "Held on the executions observed: all 20 commands on generated multi-language trees, directory vs union of files, random file lists and mixed file+directory lists, CLI vs library for files, directories and cross-file rules; evidence counts each comparison kind.",
+         "Trusted: path normalisation against the working directory; the library rule name is the one each linter's docs pass to Linter.lint(rules=[...]); union laws only for per-file rules.",
+         "DESIGN.md section 4 C10"),
 }
 PENDING = {}
 props = [json.loads(l) for l in open(os.path.join(HERE, "properties.jsonl"))]
